@@ -51,6 +51,12 @@ CHECKS['C10'] = ('exploration',
     'All variables are selectors (each path = one concrete graph / workbook, run natively); graphs <= 4 nodes, rings of 3 cells, no ranges or names on the cycle; cell order / hash seed outside. ' + TB,
     'DESIGN.md §3 C10')
 
+CHECKS['C07'] = ('exploration',
+    'CrossHair/z3 path exploration over boolean selectors (template, history, override set, output mask); the real ExcelModel runs on every explored path and is compared with a fresh model / with the same value stored as a constant',
+    'Bounded exhaustive exploration driven by the symbolic executor: for 3 template families, every history of 2 (quick) / 3 (thorough) operations out of 12 (calculate with cell / name / range / formula overrides, outputs restriction, compile+call, to_dict, write, deepcopy) followed by each of 13 override sets gives exactly the values a fresh model gives; supplied (A1, A2) values from an 8x8 pool behave as stored constants; supplying through the defined name or a multi-cell range equals supplying the cells; an overridden formula cell keeps its value; all 127 output subsets return unchanged values.',
+    'Selectors only - no symbolic cell values (numpy/schedula cannot carry proxies): exploration, not proof; histories <= 3 (statement: 8); dictionary-built models of three families. ' + TB,
+    'DESIGN.md §3 C07')
+
 NA = {
     'C15': 'the dependency closure is computed over openpyxl worksheets read from .xlsx files while mutating the schedula dispatcher; neither can be given a symbolic state (DESIGN §4)',
     'C16': 'placement is done by openpyxl range iteration zipped with np.ravel and compared by re-reading files: I/O and third-party C code, no encodable kernel (DESIGN §4)',
